@@ -601,10 +601,20 @@ class C15(Base):
         pivot_d = rng.randint(1, 4)
         from ..driver import draw_costs
         pivot_costs = draw_costs(rng)
+        family = None
         if e3:
             nmax, rfmax = min(nmax, 40), min(rfmax, 32)
+            if rng.random() < 0.6:
+                # tasks of one family share the most code
+                family = rng.choice((
+                    ("Revolve", "DiskRevolve", "PeriodicDiskRevolve",
+                     "HRevolve", "HRevolve"),
+                    ("MultistageMax", "MultistageRev", "TwoLevel"),
+                    ("MixedRAM", "MixedDISK"),
+                    ("SingleMemory", "SingleDiskCopy", "SingleDiskMove",
+                     "None", "TwoLevel")))
         for _ in range(nslots):
-            v = rng.choice(VARIANTS)
+            v = rng.choice(family or VARIANTS)
             cfg = draw_cfg(rng, v, nmax, rfmax)
             if rng.random() < 0.4 and cfg["cls"] in ("Multistage", "Mixed"):
                 # collide on memo / cache keys: same or neighbouring (n, s),
